@@ -19,7 +19,9 @@ def symbols(rnd, community=b"public"):
     for pk, pv in P.items():
         for sk in D.SRC:
             S["valid:%s:%s" % (pk, sk)] = dict(kind="valid", raw=D.notification(community, pv, reqid=rnd.choice([0, 77, 2 ** 31 - 1])), src=sk)
-    for c in (b"private", b"publi", b"public2", b"PUBLIC", b"", b"public\xff", b"\x80public", b"pub\xc3\xa9lic", b" public"):
+    for c in (b"private", b"publi", b"public2", b"PUBLIC", b"", b"public\xff", b"\x80public", b"pub\xc3\xa9lic", b" public", b"public@102", b"@public", b"public@"):
+        if c == community:
+            continue
         S["foreign:%r" % c] = dict(kind="foreign", raw=D.notification(c, P["p1"]), src="s4")
     v = D.notification(community, P["p3"])
     for n in (1, 2, 5, 10, 20, len(v) // 2, len(v) - 1):
@@ -84,13 +86,21 @@ def run(ctx):
     for _ in range(100 if q else 2000):
         words.append([rnd.choice(keys) for _ in range(rnd.randint(3, 8))])
     T = [D.run_word([S[k] for k in w]) for w in words]
+    # the library's loggers at DEBUG (a configuration): large and small notifications are delivered all the same
+    for w in [["valid:pbig:s4", "valid:p0:s4"], ["valid:pall:s6", "garbage:1", "valid:pbig:s4b"]] + [[rnd.choice(keys) for _ in range(4)] for _ in range(20 if q else 200)]:
+        T.append(D.run_word([S[k] for k in w], debuglog=True))
+    # a listener whose own community contains '@' / is a prefix of what senders use (community strings are compared verbatim)
+    for comm in ("noc@site-7", "public@", "pub"):
+        S2 = symbols(rnd, community=comm.encode())
+        for w in ([k] for k in S2 if k.startswith(("valid:p1", "valid:p3", "foreign"))):
+            T.append(D.run_word([S2[k] for k in w], community=comm))
     for w in ([["valid:p3:s4", "foreign:b'private'", "garbage:1", "valid:p0:s4"], ["truncated:10", "valid:pall:s4"]] + ([] if q else [[rnd.choice([k for k in keys if not k.startswith("indef")]) for _ in range(5)] for _ in range(25)])):
         T.append(D.run_word([S[k] for k in w], mode="loopback"))
     ctx.evaluations += len(T)
     verdicts = ctx.validate("Trace_Trap", T, chunk=2000)
     ctx.judge(T, verdicts, signature=sig, nontrivial=lambda tr, v: json.dumps(tr["scenario"]["word"]) if v[2] >= 1 else None)
-    ctx.rule = ("words over {well-formed v2c notifications with 0..19 payload bindings of every value type from IPv4 and IPv6 senders, nine foreign communities (prefix, "
-                "case, non-ASCII variants), truncations, garbage, intact envelopes around broken PDU content (7 kinds), indefinite-length octets at 4 depths, empty datagram, a v3 message, a Response PDU, v1-framed notifications}: every word of length <= %d over "
+    ctx.rule = ("words over {well-formed v2c notifications with 0..19 payload bindings of every value type from IPv4 and IPv6 senders, twelve foreign communities (prefix, "
+                "case, non-ASCII, '@'-suffixed variants; listeners whose own community contains '@'), truncations, garbage, intact envelopes around broken PDU content (7 kinds), indefinite-length octets at 4 depths, empty datagram, a v3 message, a Response PDU, v1-framed notifications}: every word of length <= %d over "
                 "six representatives, every malformed datagram before / between / after valid ones, seeded longer words; fed through the real "
                 "SNMPTrapReceiverProtocol and the callback register_trap_callback installs, and through a real loopback socket; non-trivial = >= 1 expected delivery") % (3 if q else 4)
     ctx.assumptions = ["whether a datagram is a well-formed matching notification is decided by Ber.tla on the raw bytes",
